@@ -13,7 +13,9 @@ pub fn run(ctx: &Ctx) -> i32 {
     let mon = Mon::new();
     if ctx.mode.as_deref() == Some("markers") {
         marker_sweep(ctx, &mon);
-        return finish(ctx, &mon, Spec::new("exploration", "marker arithmetic sweep (sanitizer sub-run)"));
+        let mut spec = Spec::new("exploration", "marker arithmetic sweep only (dev-profile sub-run: overflow checks and debug assertions)").need("marker_triples_swept", 10_000);
+        spec.min_nontrivial = 0;
+        return finish(ctx, &mon, spec);
     }
     let n = ctx.tier.pick(320, 2000);
     par_cases(ctx, &mon, "hist", n, |cc, rng, l| {
